@@ -1,6 +1,8 @@
 package vc
 
 import (
+	"encoding/hex"
+	"strconv"
 	"fmt"
 	"go/types"
 	"math/big"
@@ -323,6 +325,14 @@ func litShape(s string) rxShape {
 func (e *Exec) numString(st *State, sg StrSeg) *StringVal {
 	c := e.C
 	t := sg.T
+	if sg.Kind == "dec" && t.IsConst() {
+		// a constant renders to its decimal digits
+		v := t.C
+		if sg.Signed && t.S.IsBV() {
+			v = toSigned(t.C, t.S.W)
+		}
+		return e.strConst(v.String())
+	}
 	exact := (sg.Kind == "hex" || sg.Kind == "HEX") && !e.IntMode && sg.W > 0 && sg.W*4 >= t.S.W
 	if !exact && (sg.Kind == "hex" || sg.Kind == "HEX") && !e.IntMode && sg.W > 0 && st.Record == nil {
 		// narrower than the type: exactly W digits when the path condition bounds the value below 16^W
@@ -404,6 +414,23 @@ func (e *Exec) parseIntModel(st *State, s *StringVal, base int, bits int, signed
 	var t types.Type = types.Typ[types.Uint64]
 	if signed {
 		t = types.Typ[types.Int64]
+	}
+	if cs, isC := concreteString(s); isC && (base == 10 || base == 16 || base == 8 || base == 2) {
+		// a constant string is parsed exactly
+		var bi *big.Int
+		var perr error
+		if signed {
+			x, err := strconv.ParseInt(cs, base, bits)
+			bi, perr = big.NewInt(x), err
+		} else {
+			x, err := strconv.ParseUint(cs, base, bits)
+			bi, perr = new(big.Int).SetUint64(x), err
+		}
+		if perr != nil {
+			// strconv returns the clamped value on range errors; callers only use it after checking err
+			return c.NumConst(bi, e.sortOf(t)), e.newError(st)
+		}
+		return c.NumConst(bi, e.sortOf(t)), &IfaceVal{IsNil: c.True()}
 	}
 	v := c.Fresh(tag+".val", e.sortOf(t))
 	okb := c.Fresh(tag+".ok", BoolS)
@@ -994,12 +1021,72 @@ func intrHexEncode(e *Exec, st *State, fr *Frame, args []Val, in ssa.Instruction
 		odd := c.Eq(c.BvAnd(i, c.BVu(1, 64)), c.BVu(1, 64))
 		return c.Ite(odd, nib(b, false), nib(b, true))
 	}}
-	return []callRes{{st, &StringVal{C: cont, Off: e.idx(0), Len: c.Mul(sl, e.idx(2))}}}
+	r := &StringVal{C: cont, Off: e.idx(0), Len: c.Mul(sl, e.idx(2))}
+	if r.Len.IsConst() && r.Len.C.IsInt64() && r.Len.C.Int64() <= 512 {
+		// concrete length: a literal list of the digit terms, every position a lower-case hexadecimal digit
+		n := int(r.Len.C.Int64())
+		vals := make([]*Term, n)
+		sh := make(rxShape, n)
+		for i := 0; i < n; i++ {
+			vals[i] = cont.F(e.idx(int64(i)))
+			sh[i].lit = -1
+			for b := '0'; b <= '9'; b++ {
+				sh[i].set[b] = true
+			}
+			for b := 'a'; b <= 'f'; b++ {
+				sh[i].set[b] = true
+			}
+		}
+		r = &StringVal{C: &ArrLit{Vals: vals, Rest: &ArrFill{Val: c.BVu(0, 8)}}, Off: e.idx(0), Len: r.Len}
+		st.StrFacts = append(st.StrFacts[:len(st.StrFacts):len(st.StrFacts)], &StrFact{C: r.C, Off: r.Off, Shape: sh})
+	}
+	return []callRes{{st, r}}
 }
 
 func intrHexDecode(e *Exec, st *State, fr *Frame, args []Val, in ssa.Instruction, rt types.Type) []callRes {
 	s := args[0].(*StringVal)
 	c := e.C
+	if cs, ok := concreteString(s); ok {
+		// a constant string is decoded exactly
+		b, err := hex.DecodeString(cs)
+		if err != nil {
+			return []callRes{{st, TupleVal{e.byteSliceOf(st, nil, "hexdec"), e.newError(st)}}}
+		}
+		vals := make([]*Term, len(b))
+		for i, x := range b {
+			vals[i] = c.NumConst(big.NewInt(int64(x)), e.elemSort(types.Typ[types.Uint8]))
+		}
+		return []callRes{{st, TupleVal{e.byteSliceOf(st, vals, "hexdec"), errNil(e)}}}
+	}
+	if !e.IntMode && s.Len.IsConst() && s.Len.C.IsInt64() && s.Len.C.Int64() <= 512 && s.Len.C.Int64()%2 == 0 {
+		// concrete even length: the result has half as many bytes; decoding succeeds exactly when every character
+		// is a hexadecimal digit, and then each byte's two nibbles render (in either letter case) to its two
+		// characters. The bytes themselves are fresh: the relation determines them.
+		n := int(s.Len.C.Int64()) / 2
+		digit := func(ch, nib *Term) *Term {
+			lo := c.Ite(c.ULt(nib, c.BVu(10, 8)), c.Add(nib, c.BVu('0', 8)), c.Add(nib, c.BVu('a'-10, 8)))
+			up := c.Ite(c.ULt(nib, c.BVu(10, 8)), c.Add(nib, c.BVu('0', 8)), c.Add(nib, c.BVu('A'-10, 8)))
+			return c.Or(c.Eq(ch, lo), c.Eq(ch, up))
+		}
+		ishex := func(ch *Term) *Term {
+			return c.Or(c.And(c.ULe(c.BVu('0', 8), ch), c.ULe(ch, c.BVu('9', 8))), c.And(c.ULe(c.BVu('a', 8), ch), c.ULe(ch, c.BVu('f', 8))), c.And(c.ULe(c.BVu('A', 8), ch), c.ULe(ch, c.BVu('F', 8))))
+		}
+		okAll := c.True()
+		rel := c.True()
+		vals := make([]*Term, n)
+		for i := 0; i < n; i++ {
+			hi := e.sel(s.C, c.Add(s.Off, e.idx(int64(2*i))))
+			lo := e.sel(s.C, c.Add(s.Off, e.idx(int64(2*i+1))))
+			okAll = c.And(okAll, ishex(hi), ishex(lo))
+			vals[i] = c.Fresh("hexdec.b", BV(8))
+			rel = c.And(rel, digit(hi, c.LShr(vals[i], c.BVu(4, 8))), digit(lo, c.BvAnd(vals[i], c.BVu(15, 8))))
+		}
+		okb := c.Fresh("hexdec.ok", BoolS)
+		st.assume(c.Eq(okb, okAll))
+		st.assume(c.Implies(okb, rel))
+		err := &IfaceVal{Opaque: true, IsNil: okb, ID: c.Fresh("errid", BV(64))}
+		return []callRes{{st, TupleVal{e.byteSliceOf(st, vals, "hexdec"), err}}}
+	}
 	out := e.freshSliceObj(st, types.Typ[types.Uint8], "hexdec")
 	e.metaAll[out.Obj].Growable = false
 	okb := c.Fresh("hexdec.ok", BoolS)
